@@ -87,7 +87,11 @@ def date(  # noqa: PLR0912 PLR0911
         elif dat.isdigit():
             # The reference implementation does not support string
             # representations of negative integers either.
-            dat = datetime.datetime.fromtimestamp(int(dat))
+            try:
+                dat = datetime.datetime.fromtimestamp(int(dat))
+            except (OverflowError, OSError, ValueError):
+                # Out of range for the platform, just like a too large integer.
+                return str(dat)
         else:
             try:
                 dat = _parse_date_string(dat)
